@@ -1,7 +1,14 @@
 //! Kani harnesses on the unmodified bnum crate (path dependency on /repo).
 //! Conventions: see README.md in this directory. Every harness is listed in harnesses.json.
-#![allow(dead_code, unused_imports, unused_macros)]
+#![allow(dead_code, unused_imports, unused_macros, unused_variables, unused_parens)]
+#![cfg_attr(kani, feature(signed_bigint_helpers, int_roundings))]
 
 pub mod conv;
+pub mod ora;
+#[cfg(kani)]
+#[macro_use]
+mod hmac;
 #[cfg(kani)]
 mod c14_float;
+#[cfg(kani)]
+mod c01_addsub;
